@@ -45,7 +45,7 @@ def gen_world_case(rng, cid, profile):
             if k in used[n] and k not in deleted[n]: deleted[n].append(k)
             ops.append({"op": "delete", "n": n, "k": H(k)})
         elif kind == "compact":
-            ops.append({"op": "compact", "n": n, "th": rng.choice([1, 1, 2, 3])})
+            ops.append({"op": "compact", "n": n, "th": rng.choice(profile.get("thresholds", [1, 1, 2, 3]))})
         elif kind == "leave":
             ops.append({"op": "leave", "n": n})
         elif kind == "send":
@@ -55,7 +55,7 @@ def gen_world_case(rng, cid, profile):
                 b = (a + 1) % nn
             ops.append({"op": "send", "a": a, "b": b, "max": gen_max(rng, profile)})
         elif kind in ("deliver", "dup", "drop"):
-            i = 0 if rng.random() < 0.6 else rng.randrange(1000)
+            i = 0 if rng.random() < profile.get("p_fifo", 0.6) else rng.randrange(1000)
             ops.append({"op": kind, "i": i, "max": gen_max(rng, profile)})
         elif kind == "liveness":
             lv = {}
@@ -85,6 +85,143 @@ def gen_world_case(rng, cid, profile):
     return {"id": cid, "nodes": nodes, "ops": ops}
 
 
+def gen_parked_case(rng, cid, max_nodes=3, nkeys=3):
+    """delayed and duplicated datagrams, on purpose: whole digest/delta exchanges between two nodes whose delta
+    replies are sometimes delivered as a copy while the original stays parked at the head of the in-flight queue;
+    parked packets are released later, after the owner has overwritten, deleted and compacted. The generator
+    tracks how many packets are parked (an exchange started on an otherwise empty queue emits request -> delta +
+    digest -> delta), so the indices stay meaningful; when the real code emits a different number of packets the
+    history is still a valid one."""
+    nn = rng.randint(2, max_nodes)
+    nodes = [{"id": H(IDS[i]), "addr": H("10.0.0.%d:7000" % (i + 1))} for i in range(nn)]
+    keys = KEYS[:nkeys]
+    ops, parked = [], 0
+    mx = lambda: 1400 if rng.random() < 0.8 else rng.randint(46, 320)
+    D = lambda i: {"op": "deliver", "i": i, "max": mx()}
+
+    def exchange(x, y, park):
+        nonlocal parked
+        ops.append({"op": "send", "a": x, "b": y, "max": mx()})
+        ops.append(D(parked))                         # y: request -> delta, digest
+        if park:
+            ops.append({"op": "dup", "i": parked, "max": mx()})   # x applies a copy of the delta, the original is parked
+            parked += 1
+        else:
+            ops.append(D(parked))
+        ops.append(D(parked))                         # x: digest reply -> delta to y
+        ops.append(D(parked))                         # y applies
+    # everybody learns of everybody
+    for x in range(nn):
+        for y in range(nn):
+            if x != y:
+                exchange(x, y, False)
+    used = {i: [] for i in range(nn)}
+    owners = []                                       # owners of the parked deltas, oldest first
+    for _ in range(rng.randint(10, 26)):
+        r = rng.random()
+        n = rng.choice(owners) if owners and rng.random() < 0.6 else rng.randrange(nn)
+        if rng.random() < 0.15 and parked < 4:
+            # an episode: n writes, x sees it (copy; original parked), n changes it again, x catches up, the
+            # original arrives (now or later)
+            x = rng.randrange(nn - 1)
+            x = x if x < n else x + 1
+            ks = rng.sample(keys, rng.randint(1, min(2, len(keys))))
+            for k in ks:
+                if k not in used[n]: used[n].append(k)
+                ops.append({"op": "upsert", "n": n, "k": H(k), "v": H(rng.choice(VALS))})
+            exchange(x, n, True)
+            for k in ks:
+                c = rng.random()
+                if c < 0.5: ops.append({"op": "delete", "n": n, "k": H(k)})
+                elif c < 0.75: ops.append({"op": "upsert", "n": n, "k": H(k), "v": H(rng.choice(VALS))})
+            if rng.random() < 0.7: ops.append({"op": "compact", "n": n, "th": 1})
+            if rng.random() < 0.85: exchange(x, n, False)
+            if rng.random() < 0.6:
+                ops.append(D(parked - 1)); parked -= 1
+            else:
+                owners.append(n)
+            continue
+        if r < 0.28:
+            k = rng.choice(keys)
+            if k not in used[n]: used[n].append(k)
+            ops.append({"op": "upsert", "n": n, "k": H(k), "v": H(rng.choice(VALS))})
+        elif r < 0.43:
+            ops.append({"op": "delete", "n": n, "k": H(rng.choice(used[n] or keys))})
+        elif r < 0.55:
+            ops.append({"op": "compact", "n": n, "th": 1})
+        elif r < 0.87 or parked == 0:
+            x = rng.randrange(nn - 1)
+            x = x if x < n else x + 1                 # x asks n: n's delta reply is the one that may be parked
+            park = rng.random() < 0.4 and parked < 4
+            exchange(x, n, park)
+            if park: owners.append(n)
+        else:
+            j = rng.randrange(parked)
+            ops.append(D(j))                          # a parked packet finally arrives
+            parked -= 1
+            owners.pop(j)
+    while parked > 0:
+        ops.append(D(0)); parked -= 1
+    return {"id": cid, "nodes": nodes, "ops": ops}
+
+
+def gen_member_case(rng, cid):
+    """membership episodes on purpose: a node leaves (or goes silent), some peers are told / suspect it, some expire
+    it, the survivors gossip with each other in between -- the skew between the survivors' sweeps is where a
+    forgotten node comes back. Exchanges are drained first-in first-out (surplus delivers are skipped)."""
+    nn = rng.randint(3, 4)
+    nodes = [{"id": H(IDS[i]), "addr": H("10.0.0.%d:7000" % (i + 1))} for i in range(nn)]
+    ops = []
+    D = lambda: {"op": "deliver", "i": 0, "max": 1400}
+
+    def exchange(x, y):
+        ops.append({"op": "send", "a": x, "b": y, "max": 1400})
+        ops.extend(D() for _ in range(4))
+    for x in range(nn):
+        if rng.random() < 0.7:
+            ops.append({"op": "upsert", "n": x, "k": H(rng.choice(KEYS[:4])), "v": H(rng.choice(VALS))})
+    for x in range(1, nn):
+        ops.append({"op": "join", "a": x, "b": rng.randrange(x)})
+    for x in range(nn):
+        for y in range(nn):
+            if x != y and rng.random() < 0.8:
+                exchange(x, y)
+    gone = []
+    for _ in range(rng.randint(2, 4)):
+        alive = [i for i in range(nn) if i not in gone]
+        if len(alive) < 3:
+            break
+        L = rng.choice(alive)
+        surv = [i for i in alive if i != L]
+        graceful = rng.random() < 0.6
+        if graceful:
+            ops.append({"op": "leave", "n": L})
+            for y in surv:
+                if rng.random() < 0.7:
+                    ops.append({"op": "leavestream", "a": L, "b": y})
+        else:
+            for y in surv:
+                if rng.random() < 0.8:
+                    ops.append({"op": "liveness", "n": y, "levels": {nodes[L]["id"]: rng.choice([25.0, 1e9])}})
+        gone.append(L)
+        for _ in range(rng.randint(1, 4)):
+            r = rng.random()
+            x = rng.choice(surv)
+            if r < 0.45:
+                y = rng.choice([i for i in surv if i != x])
+                exchange(x, y)
+            elif r < 0.85:
+                ops.append({"op": "expire", "n": x, "ref": nodes[L]["id"], "d": rng.choice([1, 1, 1, 0, -1, 10 ** 9])})
+            elif r < 0.93:
+                ops.append({"op": "upsert", "n": x, "k": H(rng.choice(KEYS[:4])), "v": H(rng.choice(VALS))})
+            else:
+                ops.append({"op": "liveness", "n": x, "levels": {nodes[L]["id"]: rng.choice([0.0, 25.0])}})
+        for _ in range(rng.randint(1, 3)):
+            x = rng.choice(surv)
+            exchange(x, rng.choice([i for i in surv if i != x]))
+    return {"id": cid, "nodes": nodes, "ops": ops}
+
+
 def gen_max(rng, profile):
     r = rng.random()
     if r < profile.get("p_big", 0.25):
@@ -99,6 +236,11 @@ PROFILE_LOCAL = {"min_nodes": 1, "max_nodes": 1, "min_ops": 5, "max_ops": 40,
 PROFILE_NET = {"min_nodes": 2, "max_nodes": 4, "min_ops": 20, "max_ops": 70,
                "weights": {"upsert": 22, "delete": 10, "compact": 7, "leave": 2, "send": 22, "deliver": 24,
                            "dup": 3, "drop": 5, "join": 3, "leavestream": 2}}
+# stale traffic: few nodes and keys, packets linger in flight and are delivered in any order and more than once,
+# owners delete and compact in between (delayed / duplicated datagrams that meet a purged key)
+PROFILE_STALE = {"min_nodes": 2, "max_nodes": 3, "min_ops": 30, "max_ops": 80, "nkeys": 3, "p_fifo": 0.15, "p_big": 0.7,
+                 "thresholds": [1],
+                 "weights": {"upsert": 16, "delete": 12, "compact": 10, "send": 20, "deliver": 22, "dup": 14, "drop": 1}}
 PROFILE_MEMBER = {"min_nodes": 2, "max_nodes": 4, "min_ops": 20, "max_ops": 60, "nkeys": 6,
                   "weights": {"upsert": 12, "delete": 5, "compact": 3, "leave": 5, "send": 18, "deliver": 22,
                               "dup": 2, "drop": 4, "join": 4, "leavestream": 5, "liveness": 12, "expire": 8}}
@@ -304,10 +446,69 @@ def correspondence(pid, wd, cases, outs, shard=None, tag="w"):
 
 
 def run_world(binary, wd, cases, tag="world"):
-    out, logtxt = run_harness(binary, {"mode": "world", "cases": cases}, wd, tag=tag)
-    if out is None:
-        raise RuntimeError("harness run failed:\n" + logtxt)
-    return out["cases"]
+    """runs the histories through the real code. A crash of the whole harness process (fatal error, panic on a
+    goroutine of the real code, test timeout) is bisected down to the history that causes it; that history gets an
+    output with "panic" set, which every monitor reports as a failing input."""
+    if not cases:
+        return []
+    out, logtxt = run_harness(binary, {"mode": "world", "cases": cases}, wd, tag=tag, timeout=1200 if len(cases) > 1 else 300)
+    if out is not None:
+        return out["cases"]
+    if len(cases) == 1:
+        import re as _re
+        m = _re.search(r"(fatal error:[^\n]*|panic:[^\n]*|test timed out[^\n]*)", logtxt)
+        return [{"id": cases[0].get("id"), "obs": [], "panic": "harness process died on this history: " + (m.group(1) if m else logtxt[-300:])}]
+    mid = len(cases) // 2
+    return run_world(binary, wd, cases[:mid], tag=tag) + run_world(binary, wd, cases[mid:], tag=tag)
+
+
+def delivered_packets(case, out):
+    """per step: the in-flight packet (dict with bytes, dst) that a deliver/dup step handed to the real handler,
+    reconstructed from the real observations (sent packets and the index the harness used)"""
+    inflight, res = [], []
+    for op, ob in zip(case["ops"], out.get("obs") or []):
+        d = None
+        if op["op"] in ("deliver", "dup", "drop") and not ob.get("skipped") and inflight:
+            d = inflight[ob["idx"]]
+            if op["op"] != "dup":
+                inflight = inflight[:ob["idx"]] + inflight[ob["idx"] + 1:]
+            if op["op"] == "drop":
+                d = None
+        res.append(d)
+        inflight += list(ob["sent"])
+    return res
+
+
+def stale_stats(case, out):
+    """coverage of delayed/duplicated traffic: (entries delivered at or below the version the receiver already
+    holds for that owner, of which for a key the receiver does not hold any more (purged by a compaction))"""
+    from props import wire
+    stale = purged = 0
+    views = {}
+    for op, ob, d in zip(case["ops"], out.get("obs") or [], delivered_packets(case, out)):
+        if d is not None:
+            try:
+                kind, hdr, body = wire.decode_packet(bytes.fromhex(d["bytes"]))
+            except Exception:
+                kind = None
+            if kind == "delta":
+                dst = next((i for i, nd in enumerate(case["nodes"]) if nd["addr"] == d["dst"].encode("latin-1").hex()), None)
+                for h, es in body:
+                    v = views.get((dst, h[b"node_id"].hex()))
+                    if v is None or case["nodes"][dst]["id"] == h[b"node_id"].hex():
+                        continue
+                    held = {e["k"] for e in v["entries"]}
+                    for e in es:
+                        if e[b"version"] <= v["ver"]:
+                            stale += 1
+                            if e[b"key"].hex() not in held:
+                                purged += 1
+        for v in ob["views"]:
+            if v["present"]:
+                views[(v["n"], v["id"])] = v
+            else:
+                views.pop((v["n"], v["id"]), None)
+    return stale, purged
 
 
 def op_mix(cases):
